@@ -69,6 +69,11 @@ int main() {
         std::istringstream is(line);
         std::string op; is >> op;
         if (op == "enc") { std::puts(pu::show_bytes(do_enc(is)).c_str()); }
+        else if (op == "dupenc") { // control_packet::set_dup() on an encoded PUBLISH, as publish_send_op stores and re-sends it
+            std::string bytes = do_enc(is);
+            auto cp = detail::control_packet<std::allocator<char>>::of(detail::no_pid, std::allocator<char>{}, [&bytes]() { return bytes; });
+            cp.set_dup(); cp.set_dup();
+            std::puts(pu::show_bytes(std::string(cp.wire_data())).c_str()); }
         else if (op == "varlen") { long v; is >> v; std::string s; enc::basic::to_variable_bytes(s, (int32_t)v); std::printf("%s %zu\n", tohex(s).c_str(), enc::basic::variable_length((int32_t)v)); }
         else std::puts("bad-op");
     }
